@@ -147,7 +147,7 @@ fn judge_program(ctx: &mut WorkerCtx, p: &Plan, code: &[u8]) {
                     for (script, canon) in &usable {
                         let halt = canon.verdict == Verdict::Halt;
                         let steps_basis = if halt { canon.steps } else { canon.steps_to_cycle.max(1) };
-                        let b0 = (4 * steps_basis + 64) as usize;
+                        let b0 = (steps_basis.saturating_mul(4).saturating_add(64)).min(1 << 26) as usize;
                         let top = if halt { b0.saturating_mul(1 << 12) } else { p.cycle_top };
                         let mut finished_at: Option<usize> = None;
                         for budget in ladder(b0, top) {
